@@ -50,6 +50,9 @@ pub struct Case {
     /// how the files are called (`cli::stem`); 0 = `prog`
     #[serde(default)]
     pub name: u8,
+    /// Some((n, m, origin)): the program is C01's statement-heavy `bulk_program(n, m, origin)`
+    #[serde(default)]
+    pub bulk: Option<(u32, u32, u8)>,
 }
 
 /// Insert, at statement position `pos`, a reference to a label that is defined but out of reach
@@ -75,7 +78,12 @@ pub fn judge_case(c: &Case) -> Obs {
     if c.fail_at.is_some() || c.back_total.is_some() {
         spec.fit = 0;
     }
-    let built = proggen::build(&spec);
+    let mut built = proggen::build(&spec);
+    if let Some((n, m, origin)) = c.bulk {
+        built.program = super::c01::bulk_program(n, m, origin);
+        built.stack = false;
+        obs.label("statement-heavy-program-near-capacity");
+    }
     let nstmts = built.program.lines.iter().filter(|l| matches!(l.body, Body::Stmt(_))).count();
     let program = match (c.back_total, c.fail_at) {
         (Some(total), _) => {
@@ -103,7 +111,7 @@ pub fn judge_case(c: &Case) -> Obs {
     let text = refasm::render(&program, Layout::CANON).text;
     obs.key = hash_of(&(&text, c.dest, c.fault, c.default_dest, c.name));
     obs.nontrivial = c.fail_at.is_some() || c.back_total.is_some() || c.fault != Fault::None;
-    obs.show = Some(format!("fail_at={:?} dest={:?} fault={:?} default_dest={} stack={}\n{}", c.fail_at, c.dest, c.fault, c.default_dest, built.stack, text));
+    obs.show = Some(format!("fail_at={:?} dest={:?} fault={:?} default_dest={} stack={}\n{}", c.fail_at, c.dest, c.fault, c.default_dest, built.stack, if text.len() > 4000 { format!("{} ...\n[bulk program {:?}: {} lines]", text.chars().take(800).collect::<String>(), c.bulk, text.lines().count()) } else { text.clone() }));
     obs.label(match c.dest {
         Dest::Absent => "destination-absent",
         Dest::ExistingShort | Dest::ExistingLong => "destination-unrelated-contents",
@@ -329,29 +337,41 @@ impl Prop for C08 {
             for fail_at in positions {
                 for (k, dest) in [Dest::Absent, Dest::ExistingShort, Dest::ExistingLong, Dest::ExistingExtends, Dest::ExistingPrefix, Dest::ExistingSame].into_iter().enumerate() {
                     n += 1;
-                    let case = Case { spec: spec.clone(), fail_at, back_total: None, dest, fault: Fault::None, default_dest: (n + k as u64) % 3 == 0, name: 0 };
+                    let case = Case { spec: spec.clone(), fail_at, back_total: None, dest, fault: Fault::None, default_dest: (n + k as u64) % 3 == 0, name: 0 , bulk: None };
                     judge_one(ctx, rep, &case, &mut |c| judge_case(c));
                 }
             }
             // the valid program and one failing one under every kind of file name, both destinations
             for name in 8..28u8 {
                 for (fail_at, dest, default_dest) in [(None, Dest::Absent, false), (None, Dest::ExistingLong, true), (Some(nstmts / 2), Dest::ExistingShort, name % 2 == 0)] {
-                    let case = Case { spec: spec.clone(), fail_at, back_total: None, dest, fault: Fault::None, default_dest, name };
+                    let case = Case { spec: spec.clone(), fail_at, back_total: None, dest, fault: Fault::None, default_dest, name , bulk: None };
                     judge_one(ctx, rep, &case, &mut |c| judge_case(c));
                 }
             }
             // backward references in programs whose total size sits right at the reach of a 9-bit field
             for total in [255usize, 256, 257, 258, 259, 300] {
                 for dest in [Dest::Absent, Dest::ExistingLong] {
-                    let case = Case { spec: spec.clone(), fail_at: None, back_total: Some(total), dest, fault: Fault::None, default_dest: false, name: 0 };
+                    let case = Case { spec: spec.clone(), fail_at: None, back_total: Some(total), dest, fault: Fault::None, default_dest: false, name: 0 , bulk: None };
                     judge_one(ctx, rep, &case, &mut |c| judge_case(c));
                 }
             }
             for fault in [Fault::DevFull, Fault::MissingDir, Fault::IsDirectory, Fault::ReadOnlyFile] {
                 for fail_at in [None, Some(0), Some(nstmts / 2)] {
-                    let case = Case { spec: spec.clone(), fail_at, back_total: None, dest: Dest::Absent, fault, default_dest: false, name: 0 };
+                    let case = Case { spec: spec.clone(), fail_at, back_total: None, dest: Dest::Absent, fault, default_dest: false, name: 0 , bulk: None };
                     judge_one(ctx, rep, &case, &mut |c| judge_case(c));
                 }
+            }
+        }
+        // statement-heavy programs near the capacity of the address space, valid and failing at the last statement
+        let grid = super::c01::bulk_grid(false);
+        for (i, b) in grid.iter().enumerate() {
+            if i % 3 != 0 || !ctx.mine(1000 + i as u64) {
+                continue;
+            }
+            let spec = ProgSpec { main: vec![], subs: vec![], sub_call: vec![], ending: proggen::Ending::Halt, orig_sel: 0, orig_val: 0x3000, stack: false, recursion: 0, data: vec![0], strings: vec![String::new()], raw_words: None, fit: 0, spin: 0 };
+            for (fail_at, dest) in [(None, Dest::ExistingLong), (Some(usize::MAX / 2), Dest::ExistingShort)] {
+                let case = Case { spec: spec.clone(), fail_at, back_total: None, dest, fault: Fault::None, default_dest: false, name: 0, bulk: Some(*b) };
+                judge_one(ctx, rep, &case, &mut |c| judge_case(c));
             }
         }
         rep.exhaustive.push("per generated program: every emission position x 6 destination states, plus 4 destination faults x 3 assembly outcomes".into());
